@@ -59,6 +59,34 @@ class RuleCtx:
             raise AnalysisError("%s: anchor missing: %s" % (self.rid, what))
 
 
+_changed_cache = {}
+
+
+def changed_signatures(P):
+    """{fn id: what changed} for functions of the pinned API present under their name with
+    other parameter or result types."""
+    key = id(P)
+    if key in _changed_cache:
+        return _changed_cache[key]
+    here = os.path.dirname(os.path.abspath(__file__))
+    with open(os.path.join(here, "api_signatures.json")) as f:
+        api = json.load(f)["functions"]
+    out = {}
+    for name, s in api.items():
+        f = P.fns.get(name)
+        if f is None or f.body.get("in_test"):
+            continue
+        ins = [t["s"] for t in f.body.get("inputs", [])]
+        o = f.body.get("output", {}).get("s")
+        if ins != list(s["inputs"]):
+            out[name] = "parameters (%s) were (%s)" % (", ".join(ins)[:120], ", ".join(s["inputs"])[:120])
+        elif o != s["output"]:
+            out[name] = "result %s was %s" % (o, s["output"])
+    _changed_cache.clear()
+    _changed_cache[key] = out
+    return out
+
+
 def run_rules(P, rule_ids, env=None):
     """Run rules; returns list of per-rule result dicts."""
     env = env or {}
@@ -77,6 +105,28 @@ def run_rules(P, rule_ids, env=None):
             import traceback
             tb = traceback.extract_tb(e.__traceback__)[-1]
             err = "%s: idiom not recognised (the rule could not read the code: %s at %s:%d)" % (rid, type(e).__name__, tb.filename.split("/")[-1], tb.lineno)
+        # A function of the pinned API whose signature changed: rules read the arguments of
+        # its calls (and its parameters) by position, so what they conclude about it, or about
+        # a function calling it, is not a reading of the code: not judged.
+        changed = changed_signatures(P)
+        if changed and ctx.violations:
+            kept = []
+            for v in ctx.violations:
+                fid = v.key[0] if isinstance(v.key, (tuple, list)) and v.key else None
+                f = P.fns.get(fid) if isinstance(fid, str) else None
+                rel = set()
+                if f is not None:
+                    rel.add(f.id)
+                    rel.add(f.body.get("root") or f.id)
+                    for c in f.calls:
+                        rel.update(P.local_targets(c))
+                hit = sorted(rel & set(changed))
+                if hit:
+                    if err is None:
+                        err = "%s: idiom not recognised: the signature of %s changed (%s): the rule reads its arguments by position and does not judge %s" % (rid, hit[0], changed[hit[0]], fid)
+                else:
+                    kept.append(v)
+            ctx.violations = kept
         if err is None and getattr(ctx, "open_obligations", None):
             k, m, site = ctx.open_obligations[0]
             err = "%s: %d open panic obligation(s), e.g. %s at %s: %s" % (rid, len(ctx.open_obligations), k, site, m)
